@@ -699,7 +699,11 @@ class RowWiseModifiedBisectionSearch:
                 nbh_start = nbh_max
                 # continueLoop = True
                 # highT_e = T_lower
+                # the whole smallest field meets the limits: it is the design when no smaller sub-field does
+                selected_coordinates = starting_field
                 selected_specifier = lower_field_specifier
+                selected_temp_excess = t_lower
+                selected_spacing = spacing_stop
                 i = 0
                 while i < self.max_iter:
                     nbh = (nbh_max + nbh_min) // 2
